@@ -33,7 +33,7 @@ def rule_merge_op(ctx, rep):
         "R-MERGE-OP",
         "accumulation `acc |= X` (or `acc = acc | X`) whose accumulator is a ResultSet must resolve to a merging method "
         "defined in the ResultSet hierarchy; dict.__ior__ is a plain update that drops the earlier file's findings per rule id",
-        min_instances=4,
+        min_instances=1,
     )
     for fn in ctx.prog.live_functions():
         r = ctx.resolver(fn)
